@@ -665,7 +665,7 @@ def run(ctx):
             ctx.log("replay file has no recorded case (a broken proof/correspondence has no input); running the normal check")
         else:
             cases = [rc]
-    outs = run_driver(ctx, "C07", "\n".join(to_input(c) for c in cases) + "\n", timeout=1500)
+    outs = run_driver(ctx, "C07", [(to_input(c)) + "\n" for c in cases], timeout=1500)
     if outs is None or len(outs) != len(cases):
         ctx.broke("correspondence", "drv_C07", "driver returned %s lines for %d cases; rc=%s %s" % (None if outs is None else len(outs), len(cases), getattr(ctx, "driver_rc", "?"), getattr(ctx, "driver_err", "")))
         return
